@@ -304,7 +304,10 @@ pub fn run_c16(args: &Args) -> i32 {
 // ------------------------------------------------------------------------------ C17
 
 fn book_index(b: chess_lookup::BookMoves) -> usize {
-    format!("{b:?}").trim_start_matches("book").parse().unwrap_or(usize::MAX)
+    format!("{b:?}")
+        .trim_start_matches("book")
+        .parse()
+        .unwrap_or_else(|_| machinery_failure("BookMoves no longer renders as `book<index>`: the index observation of C17 must be adapted"))
 }
 
 pub struct BookWalk {
